@@ -177,6 +177,9 @@ def jobs(tier):
             out.append({"prop": PROP, "cfg": cfg, "order": "asc", "base": BASE, "scripts": [[], []], "orderlaw": True,
                         "opts": {"explicit_time": True, "aging": aging, "prioritize": {}}})
     for cfg in (["po", "oo"]):
+        out.append({"prop": PROP, "cfg": cfg, "order": "asc", "base": BASE, "scripts": [[], []], "derive": True,
+                    "opts": {"explicit_time": True, "prioritize": {}}})
+    for cfg in (["po", "oo"]):
         for aging in (0, 10):
             for pname in ("flat", "x_first", "x_last"):
                 out.append({"prop": PROP, "cfg": cfg, "order": "asc", "base": BASE, "scripts": [[], []],
@@ -255,7 +258,59 @@ def run_order(job):
             "capped": False, "violations": vs, "outcomes": [], "sample": {"order-scenarios": n}}
 
 
+DERIVE_SLEEPS = (0.5, 5.0, 10.0, 15.0)
+
+
+def run_derive(job):
+    """the ageing interval an engine built with defaults uses is derived from the slower of the two accounts' poll intervals
+    (documented: max(default_sleep)/5): for every pair of poll intervals, and a change on either side, nothing is propagated
+    before the change has aged that long"""
+    import itertools
+    vs = []
+    n = 0
+    steps = 0
+    for ls, rs in itertools.product(DERIVE_SLEEPS, repeat=2):
+        expect = max(ls, rs) / 5
+        for side in (0, 1):
+            scripts = [[], []]
+            scripts[side].append(["write", "x", "X1"])
+            opts = dict(job["opts"], default_sleep=[ls, rs])
+            opts.pop("aging", None)
+            w = DRIVER.make_world(dict(job, scripts=scripts, opts=opts))
+            n += 1
+            try:
+                bad = None
+                if abs(w.cs.aging - expect) > 1e-9:
+                    bad = ("derived-ageing", {"aging": w.cs.aging, "expected": expect, "default_sleep": [ls, rs]})
+                w.user(side)
+                w.step("IL" if side == 0 else "IR")
+                t0 = w.clock.t
+                synced = None
+                for i in range(60):
+                    w.step("S")
+                    steps += 1
+                    if w.tree(1 - side).get("x") == b"X1":
+                        synced = w.clock.t - t0
+                        break
+                    w.clock.t += expect / 8
+                if bad is None and synced is not None and synced < expect - 1e-9:
+                    bad = ("synced-before-aged", {"after_s": synced, "expected_at_least": expect, "default_sleep": [ls, rs]})
+                if bad is None and synced is None:
+                    bad = ("never-synced", {"default_sleep": [ls, rs], "waited_s": w.clock.t - t0})
+                if bad:
+                    v = viol("ageing-" + bad[0], "side%d:%s" % (side, "L<R" if ls < rs else "L>R" if ls > rs else "L=R"), bad[1])
+                    v["hist"] = ["U" + "LR"[side], "I" + "LR"[side], "S/T*"]
+                    if not any(o["kind"] == v["kind"] and o["sig"] == v["sig"] for o in vs):
+                        vs.append(v)
+            finally:
+                w.close()
+    return {"states": steps, "transitions": steps, "evaluations": n, "traces": n, "nontrivial": n, "terminals": n,
+            "capped": False, "violations": vs, "outcomes": [], "sample": {"derive-scenarios": n}}
+
+
 def run_job(job):
+    if job.get("derive"):
+        return run_derive(job)
     if job.get("starve"):
         return run_starve(job)
     if job.get("orderlaw"):
